@@ -121,7 +121,7 @@ func c12Scope(r *core.Report) ([]*core.Func, map[*core.Func]*core.Func, int) {
 func C12(r *core.Report) {
 	r.Explanation = "Crash-idiom inventory over every repository function reachable from the parser entry points (decoders, CAR reader, compact index readers in three formats, typed index readers, index metadata, sig-exists readers, block-time index, address-index log and manifest, transaction-status parsers, CAR section parsers, frame reassembly, block accumulator): " +
 		"R1 single-value type assertions, R2 index and slice expressions, R3 fixed-width binary decodes (binary.*Endian.UintN / PutUintN and the repo's BtoUintN helpers) and slice-to-array conversions, R4 make() sized by a non-constant value, R5 explicit panic, R6 integer division by a non-constant - each site must be discharged by a dominating guard found on the CFG (length facts, comma-ok, range index, loop bounds, array types, lengths of slices made in the function), or be listed with its invariant in tables/c12_exempt.json; an undischarged unlisted site is a violation. " +
-		"R9 a data-driven loop (no counter) goes round again only after the error of the read in it was found to be nil: a truncated file, where the read keeps answering (0, io.EOF), ends the loop instead of spinning. Decides: absence of unguarded instances of these idioms in the analysed functions. R10 Meta.MarshalBinary rejects only what the decoder cannot produce (lengths above a limit >= 255): the manifest re-serialises parsed metadata through Meta.Bytes, which panics on a marshal error. R11 the byte count of binary.Uvarint / Varint is used (added to a cursor, sliced with, returned) only where it is known to be positive - a test that excludes 0 only lets an overlong varint (negative count) through; exempt: the count converted to an unsigned type and added to a length that is compared with an upper limit before every successful return. Not decided: termination beyond R9, memory proportionality beyond idiom R4, panics inside dependencies (cbor, cid, solana-go, zstd, protobuf), arithmetic overflow."
+		"R9 a data-driven loop (no counter) goes round again only after the error of the read in it was found to be nil: a truncated file, where the read keeps answering (0, io.EOF), ends the loop instead of spinning. Decides: absence of unguarded instances of these idioms in the analysed functions. R10 Meta.MarshalBinary rejects only what the decoder cannot produce (lengths above a limit >= 255): the manifest re-serialises parsed metadata through Meta.Bytes, which panics on a marshal error. R11 the byte count of binary.Uvarint / Varint is used (added to a cursor, sliced with, returned) only where it is known to be positive - a test that excludes 0 only lets an overlong varint (negative count) through; exempt: the count converted to an unsigned type and added to a length that is compared with an upper limit before every successful return. Not decided: termination beyond R9, memory proportionality beyond idiom R4, panics inside dependencies (cbor, cid, solana-go, zstd, protobuf), arithmetic overflow. R12 the decoder of the block-time index accepts a capacity only when a known comparison implies capacity >= end-start+1 (the accessors admit every slot of the inclusive range and index values[slot-start]); the linear form of the compared expression is computed through locals, and the inclusiveness is read from the accessors' own upper test."
 	r.Assumptions = []string{"facts are matched syntactically (same printed expression) and must be fresh (no reassignment between guard and use)", "the exemption table entries were confirmed by reading; each names one construct and its invariant"}
 	p := r.Prog
 	fns, reach, nroots := c12Scope(r)
@@ -299,6 +299,8 @@ func C12(r *core.Report) {
 	r.Extra["C12_exempt_entries"] = len(table)
 	r.Extra["C12_exempt_stale"] = stale
 	r.Extra["C12_site_counts"] = counts
+	c12CapacityCoversTheSlotRange(r)
+	r.Floor("C12.R12", 1)
 	r.Floor("C12.R1", 6)
 	r.Floor("C12.R9", 2)
 	r.Floor("C12.R2", 44)
